@@ -35,23 +35,23 @@ func intRange(w int, signed bool) (lo, hi *big.Int) {
 }
 
 type State struct {
-	pc     []Term
-	pcSet  map[string]bool
-	heap   map[string]Term
-	cells  map[int]Value
-	names  map[string]Value // source-level names bound along this path (innermost frame)
-	ghost  map[string]Value
-	trace  []string // branch decisions, for naming/debugging
-	visits map[*ssa.BasicBlock]int
-	dead   bool
-	neq     map[string]bool // syntactically known disequalities "a|b"
-	frames  map[string]*frameInfo // havoc array symbol -> frame fact (see sel)
-	freshAt map[string]int      // fresh object symbol -> allocation serial
-	serial  int
-	eqc     map[string]string // term -> simpler equal term (constants, parameters) known from assumptions
-	lazy     []*lazyU        // universally quantified assumptions over objects, instantiated on demand
+	pc       []Term
+	pcSet    map[string]bool
+	heap     map[string]Term
+	cells    map[int]Value
+	names    map[string]Value // source-level names bound along this path (innermost frame)
+	ghost    map[string]Value
+	trace    []string // branch decisions, for naming/debugging
+	visits   map[*ssa.BasicBlock]int
+	dead     bool
+	neq      map[string]bool       // syntactically known disequalities "a|b"
+	frames   map[string]*frameInfo // havoc array symbol -> frame fact (see sel)
+	freshAt  map[string]int        // fresh object symbol -> allocation serial
+	serial   int
+	eqc      map[string]string // term -> simpler equal term (constants, parameters) known from assumptions
+	lazy     []*lazyU          // universally quantified assumptions over objects, instantiated on demand
 	lazyDone map[string]bool
-	collect *[]Term // when set, assumptions are collected here instead of the path condition (quantifier bodies)
+	collect  *[]Term // when set, assumptions are collected here instead of the path condition (quantifier bodies)
 }
 
 func (s *State) clone() *State {
@@ -96,33 +96,33 @@ type Frame struct {
 }
 
 type Exec struct {
-	staticSeen map[string]bool
-	fvCells    map[string]int // free variables of the function under verification: spec name -> cell
-	prog      *Program
-	st        *Symtab
-	mode      Mode
-	fn        *ssa.Function
-	fnName    string
-	contract  *Contract
-	obs       []*Obligation
-	layouts   *Layouts
-	heapSorts map[string]string
-	bindings  map[string]types.Type // type parameter name -> binding
-	cellN     int
-	nodeRefType types.Type
-	errors    []string
-	obN       map[string]int
-	paths     int
-	maxPaths  int
-	retN      int
-	layer     string
-	covers    []*Obligation
-	callDepthLimit int
-	opts      map[string]string
-	assignedHeaps map[string]bool // heap arrays stored to by the top-level function (frame check)
-	inRel bool
-	lastRet *ssa.Return
-	caseLabels map[string]string // goal sub-term -> label of the case it proves (forallref case split)
+	staticSeen      map[string]bool
+	fvCells         map[string]int // free variables of the function under verification: spec name -> cell
+	prog            *Program
+	st              *Symtab
+	mode            Mode
+	fn              *ssa.Function
+	fnName          string
+	contract        *Contract
+	obs             []*Obligation
+	layouts         *Layouts
+	heapSorts       map[string]string
+	bindings        map[string]types.Type // type parameter name -> binding
+	cellN           int
+	nodeRefType     types.Type
+	errors          []string
+	obN             map[string]int
+	paths           int
+	maxPaths        int
+	retN            int
+	layer           string
+	covers          []*Obligation
+	callDepthLimit  int
+	opts            map[string]string
+	assignedHeaps   map[string]bool // heap arrays stored to by the top-level function (frame check)
+	inRel           bool
+	lastRet         *ssa.Return
+	caseLabels      map[string]string // goal sub-term -> label of the case it proves (forallref case split)
 	callAssumesUsed map[string]bool
 }
 
